@@ -33,6 +33,7 @@ import os
 import re
 import sys
 
+from harness.pyprelude import PreludeKernels
 from vlib.core import VERIF, Check, Stream, b01, hs, hx, line, unhx
 
 _GEN = None
@@ -957,10 +958,11 @@ class HttpServerPathStream(Stream):
 
 CHECK = Check(
     prop="C19",
-    gen=["Framing"],
-    modules=["WzVerif.Props.C19"],
-    streams=[ChunkLenStream(), DechunkStream(), EncodeStream(), ServerStream(), EnvironStream(), MakeEnvironStream(), HttpServerPathStream()],
+    gen=["Framing", "PyFns_Chunked"],
+    modules=["WzVerif.Props.C19", "WzVerif.Props.C19T"],
+    streams=[ChunkLenStream(), DechunkStream(), EncodeStream(), ServerStream(), EnvironStream(), MakeEnvironStream(), HttpServerPathStream(), PreludeKernels()],
     assumptions=[
+        "DechunkedInput.read_chunk_len and readinto are regenerated from the source by tools/py2lean.py (Gen/PyFns_Chunked.lean) on every run and proved to agree with the hand model for all inputs (Props/C19T): _done / _len and the bytes _rfile still holds are threaded through as explicit state, _rfile.readline / read are the model's primitives, the buffer is a byte list with slice assignment (Util/PyPrelude.lean, stream prelude-kernels), the while loop runs on explicit fuel (len(wire) + 1 suffices: each continuing iteration consumes a byte); a negative _len (never stored by the code) is outside the statement",
         "partial: http.server's request-line / header parsing, sockets, selectors and timing are outside the model; they are only exercised by stream server",
         "rfile is a blocking buffered reader: readline() returns up to and including LF (or everything), read(n) returns n bytes unless the stream ends (modelled as a byte list); that DechunkedInput uses exactly these two calls (not read1 / recv) is the AST obligation serving_io_structure, and the dechunk / server streams feed it through io.BufferedReader over a raw stream that delivers at most k bytes per read, with chunks larger than the buffer and request bodies written to the socket in two pieces",
         "Python int(s, 16) on the stripped latin-1 size line is hand-modelled (sign, 0x prefix, single underscores, surrounding whitespace) and validated by stream chunklen",
